@@ -253,9 +253,11 @@ package majority
 //@ wire MajorityHeuristicParams
 //@   property C01 C09 C11 C20
 //@   json Weights=weights CurrentChoice=currentChoice RandomSeed=randomSeed RandomAlternativesOrdering=randomAlternativesOrdering DrawResolution=drawResolution
+//@   gotypes Weights=model.Weights CurrentChoice=model.Alternative RandomSeed=int64 RandomAlternativesOrdering=bool DrawResolution=string
 //@ wire MajorityEvaluation
 //@   property C01 C09 C11 C20
 //@   json Value=value ComparedWith=comparedWith ComparedAlternativeValue=comparedAlternativeValue
+//@   gotypes Value=float64 ComparedWith=model.Alternative ComparedAlternativeValue=float64
 
 // ---- registered names (what a request must say to select this object; what error messages list)
 //@ func (*MajorityBiasListener).Identifier
